@@ -27,6 +27,7 @@ type BatchSpec struct {
 	SCC     int         `json:"scc"`
 	Number  int         `json:"number"` // pre-set batch number (0 = let Create number it)
 	Company string      `json:"company"`
+	Desc    string      `json:"desc,omitempty"` // CompanyEntryDescription (default PAYROLL)
 	Trace0  int         `json:"trace0"` // first trace sequence number (ascending from there)
 	Entries []EntrySpec `json:"entries"`
 }
@@ -53,6 +54,9 @@ func header(b BatchSpec) *ach.BatchHeader {
 	bh.CompanyIdentification = b.Company
 	bh.StandardEntryClassCode = b.SEC
 	bh.CompanyEntryDescription = FwdDesc
+	if b.Desc != "" {
+		bh.CompanyEntryDescription = b.Desc
+	}
 	bh.EffectiveEntryDate = FwdDate
 	bh.ODFIIdentification = ODFI
 	bh.BatchNumber = b.Number
